@@ -216,6 +216,64 @@ def check_axes(kind, views, commons, shape, call):
     return n
 
 
+def check_axes_after_mutation(views, commons, shape):
+    """The block clause on cubes built from the SAME index objects before and after a library operation mutates one of
+    them (a whole entry of a multi-axis dimension removed by difference_update, then rows appended): whatever an index
+    remembers between cubes has to follow its content.  Oracle: brute-force count table of the 1-D slices of the
+    mutated dimension's spec view."""
+    from catii import ccube
+
+    struct = [tuple(v.shape[1:]) for v in views]
+    multi = [i for i, s_ in enumerate(struct) if s_]
+    if not multi:
+        return 0
+    N = views[0].shape[0]
+    call = Call(("count", None, 0, "none", False, "nan"), N, 0, 0)
+    idx = [mk(v, c) for v, c in zip(views, commons)]
+    evaluate(call, lambda: ccube(idx, shape))  # the first cube over these objects
+    i = multi[0]
+    x = idx[i]
+    if len(x) == 0:
+        return 0
+    k0 = sorted(x.keys())[0]
+    other = type(x)({k0: np.array(x[k0], dtype=np.uint32)}, x.common, x.shape)
+    try:
+        x.difference_update(other)
+    except Exception:  # noqa  (C06 judges the operation itself)
+        return 0
+    if wf(x):
+        return 0
+    views2 = list(views)
+    views2[i] = view(x)
+    full = evaluate(call, lambda: ccube(idx, shape))
+    extra = tuple(e for s_ in struct for e in s_)
+    shape = tuple(int(e) for e in shape)
+    ob = "ccubes.ccube.count/extra-axes-after-mutation-of-a-dimension"
+    cls = {"cube": "ccube", "extra_extents": list(extra), "dims": len(views), "history": "cube, difference_update(one whole entry), cube"}
+    inp = lambda: dict(case_input("ccube", views, commons, shape, call), history=["ccube(dims).count()", "dims[%d].difference_update({%r: its rows})" % (i, list(k0)), "ccube(dims).count()"])  # noqa
+    MON.check(ob + "-no-raise", full.err is None, lambda: "the call %s" % full.show(), inp, cls)
+    if full.err is not None:
+        return 0
+    n = 0
+    for j in np.ndindex(*extra):
+        parts = split(j, struct)
+        sl = [v[(slice(None),) + p_] for v, p_ in zip(views2, parts)]
+        try:
+            blk = full.block(j)
+        except IndexError:
+            MON.check(ob + "-block-equals-bruteforce-count-of-the-current-slices", "no block at %r" % (j,), None, inp, cls)
+            continue
+        tab = np.zeros(shape, dtype=np.int64)
+        for r in range(N):
+            tab[tuple(int(v[r]) for v in sl)] += 1
+        okm = blk.miss.shape == tab.shape and bool(((tab == 0) == blk.miss).all())
+        okv = okm and bool((np.asarray(blk.vals, dtype=float)[tab > 0] == tab[tab > 0]).all())
+        MON.check(ob + "-block-equals-bruteforce-count-of-the-current-slices", okm and okv,
+                  lambda: "block at %r: %s ; brute-force count table of the current content %r" % (list(j), blk.show(), tab.tolist()), inp, cls)
+        n += 1
+    return n
+
+
 def check_inferred_shape(kind, views, commons):
     """count with interacting_shape=None: shape == extra extents + inferred category extents."""
     struct = [tuple(v.shape[1:]) for v in views]
@@ -343,6 +401,8 @@ def work(args):
                         st.samples.append(dict(case_input(kind, views, commons, E, call), blocks=n))
                 if sc["inferred"]:
                     check_inferred_shape(kind, views, commons)
+                if kind == "ccube":
+                    check_axes_after_mutation(views, commons, E)
         j += 1
     out = MON.dump()
     out.update(driver_calls=st.calls, nontrivial=st.nontrivial, samples=st.samples, jobs=j)
